@@ -277,6 +277,13 @@ def _tb_err(node):
     except NotImplementedError:
         return None
     except Exception as e:
+        # a node whose own .chunks raises is broken as an expression (the
+        # estimate merely trips over it): signed by the raise site so that it is
+        # told apart from a defect of the estimate itself
+        try:
+            node.chunks
+        except Exception as e2:  # noqa: BLE001
+            return ("node-chunks-raise:" + E.exc_sig(e2), f".chunks of the node raises {type(e2).__name__}: {str(e2)[:120]} (so does transfer_bytes)")
         return f"transfer_bytes raised {type(e).__name__}: {str(e)[:120]}"
     if not (isinstance(tb, tuple) and len(tb) == 2):
         return f"transfer_bytes is not a pair: {tb!r}"
@@ -333,6 +340,8 @@ def judge_c27(y, ref, exact, check_dtype, out=None):
                 out.count("nodes_checked")
                 out.dcount("node_types", type(node).__name__)
             err = _tb_err(node)
+            if isinstance(err, tuple):
+                return (err[0], type(node).__name__, f"[{pname}] {type(node).__name__}: {err[1]}")
             if err:
                 return ("transfer-bytes", type(node).__name__, f"[{pname}] {type(node).__name__}: {err}")
     try:
